@@ -113,6 +113,12 @@ def _kernel_case(spec):
             a = rng.integers(0, n, m); b = (a + 1 + rng.integers(0, n - 1, m)) % n
             pts = (sites[a] + sites[b]) / 2
             # drop evaluation points that coincide with a site
+        if i % 4 == 3:
+            # the same point sets far from the origin (chip coordinates): only coordinate DIFFERENCES enter the kernel
+            ang_ = rng.uniform(0, 2 * np.pi)
+            off = np.abs(sites).max() * 10.0 ** rng.uniform(2, 5) * np.array([np.cos(ang_), np.sin(ang_)])
+            sites = sites + off
+            pts = pts + off
         d = np.hypot(pts[:, None, 0] - sites[None, :, 0], pts[:, None, 1] - sites[None, :, 1])
         if d.min() == 0:
             continue
